@@ -94,17 +94,43 @@ def main():
             lo, hi = cal.epoch_seconds(y), cal.epoch_seconds(y + 1)
             items.append(dict(name='zone/mgr/%03d/%d' % (zi, y), entry='z_mgr_zdt', args=[zi, lo, hi, other], timeout=to,
                               ldt_contracts=True, year_contract=(y, lo, hi), loop_limit=500, feas_ms=20000))
+    # compareTo inside one database zone, around backward offset changes (zic tells where they are; the claim checked is
+    # about the real code only): t within 2 h before .. 1 h after the change, t + d up to 2 h later
+    info = zones.build_oracles(kc, ['ext', 'bas'])
+    xn = zones.registry_names(kc, 'ext', n_ext)
+    bn = zones.registry_names(kc, 'bas', n_bas)
+
+    def backward_steps(scope, nm):
+        o = zones.ORACLES[scope][nm]
+        out = []
+        for k in range(1, len(o.steps)):
+            T = o.steps[k][0]
+            if o.steps[k][1] >= o.steps[k - 1][1] or T < cal.epoch_seconds(2000) or T >= cal.epoch_seconds(2050):
+                continue
+            y = cal.civil(T // 86400)[0]
+            if T - 3 * 86400 < cal.epoch_seconds(y) or T + 3 * 86400 >= cal.epoch_seconds(y + 1):
+                continue        # the year contract of the item covers one UTC year
+            out.append((T, y))
+        return out
+    cand = {'ext': [(i, T, y) for i in range(n_ext) for (T, y) in backward_steps('ext', xn[i])],
+            'bas': [(i, T, y) for i in range(n_bas) for (T, y) in backward_steps('bas', bn[i])]}
+    n_order = {'ext': 160 if thorough else 12, 'bas': 160 if thorough else 12, 'mgr': 32 if thorough else 4}
+    order_items = 0
+    for kind, entry, scope in (('ext', 'z_ext_order', 'ext'), ('bas', 'z_bas_order', 'bas'), ('mgr', 'z_mgr_order', 'ext')):
+        for (zi, T, y) in rnd.sample(cand[scope], min(n_order[kind], len(cand[scope]))):
+            day0 = (T - 7200) // 86400 - 1
+            items.append(dict(name='order/%s/%03d/%d' % (kind, zi, T), entry=entry, args=[zi, T - 7200, T + 3600, 7200], timeout=to,
+                              ldt_window=(day0, 4), year_contract=(y, cal.epoch_seconds(y), cal.epoch_seconds(y + 1)),
+                              loop_limit=500, feas_ms=20000))
+            order_items += 1
     for it in items:
         it['quick_ms'] = 8000
     kc.ext_jobs = 8
     res = kc.run_items(items, jobs=16)
     kc.judge_kernel(res)
     # every database zone: offsets inside the lemma's range at every instant (engine run as in C01/C02)
-    info = zones.build_oracles(kc, ['ext', 'bas'])
     lem = kc.run_items([dict(name='year_lemma/%d' % y, year=y) for y in YEARS], jobs=16, fn=zones.run_year_lemma)
     zones.judge_lemmas(kc, lem)
-    xn = zones.registry_names(kc, 'ext', n_ext)
-    bn = zones.registry_names(kc, 'bas', n_bas)
     zsel_x = range(n_ext) if thorough else sorted(rnd.sample(range(n_ext), 60))
     zsel_b = range(n_bas) if thorough else sorted(rnd.sample(range(n_bas), 40))
     zitems = [dict(name='ext/%s' % xn[i], scope='ext', index=i, zone=xn[i], years=YEARS, offset_range=960) for i in zsel_x]
@@ -120,6 +146,9 @@ def main():
                 'offsets': '|offset| <= %d min (fixed), std in +-14 h and dst in +-2 h (manual)' % omax,
                 'precondition': 'the local date-time t + 60*offset is itself representable in acetime_t (documented range)',
                 'zones_full_roundtrip': {'extended': len(ext_sel), 'basic': len(bas_sel), 'manager': len(mgr_sel)},
+                'same_zone_compareTo': '%d seed-drawn backward offset changes (of %d extended / %d basic in 2000..2049): t in [T-2h, T+1h), '
+                                       'second instant t+d with d in [1, 7200] s, exact 4-day calendar window contract' % (
+                                           order_items, len(cand['ext']), len(cand['bas'])),
                 'zones_offset_range': {'extended': len(list(zsel_x)), 'basic': len(list(zsel_b))}},
         outside=['instants whose local date-time is outside int32 (documented limit)', 'offsets beyond +-%d min' % omax])
     cov['zone_offset_range_queries'] = sum(r['queries'] for r in zres)
